@@ -817,6 +817,58 @@ def wave7_rules(ctx):
     return obs
 
 
+TRANSFORM_RX = re.compile(r"^(trim\w*|split\w*|rsplit\w*|join|concat|replace\w*|to_(ascii_)?(lower|upper)case|make_ascii_\w+|strip_(prefix|suffix)|repeat|rev|truncate|pop|retain|remove|normalize\w*|lines|drain)$")
+
+
+def wave11_rules(ctx):
+    """obligations added after the eleventh wave of seeded changes"""
+    from share import relabel
+    ob = ctx.ob
+    tc = ctx.tc
+    obs = []
+    # (1) a name is camel-cased for the property families only (shared with C04.normalise)
+    from rules.c04 import normalise_rule
+    obs += relabel(normalise_rule(ctx), "C04.normalise/only", "C12.names/camel-only")
+    # (2) what the generator hands to the string-literal emitter is the text the parser stored: no trimming, splitting, joining,
+    #     case folding or stripping between the tree and `gen_lit_str` (the parser has already decoded and, where the language says
+    #     so, normalised it)
+    n_sites, changed = 0, []
+    for f in tc.fns:
+        if not f.body or f.module[:1] != ["proc_gen"]:
+            continue
+        locs = {}
+        for n in sir.walk(f.body, into_closures=True):
+            if n.get("k") == "local" and n["pat"].get("k") == "p_ident" and n.get("init") is not None:
+                locs.setdefault(n["pat"]["name"], []).append(n["init"])
+            if n.get("k") == "match":      # `match text { "" => .., key => gen_lit_str(key) }`: the binding is the scrutinee
+                for a_ in n["arms"]:
+                    for nm, _p in sir.pat_bindings(a_["pat"]):
+                        locs.setdefault(nm, []).append(n["e"])
+            if n.get("k") == "if" and n["cond"].get("k") == "let":
+                for nm, _p in sir.pat_bindings(n["cond"]["pat"]):
+                    locs.setdefault(nm, []).append(n["cond"]["e"])
+        for n in sir.walk(f.body, into_closures=True):
+            if not (n.get("k") == "call" and sir.call_name(n) == "gen_lit_str" and n["args"]):
+                continue
+            n_sites += 1
+            seen, todo, depth = set(), [n["args"][0]], 0
+            while todo and depth < 4:
+                nxt = []
+                for e in todo:
+                    for x in sir.walk(e, into_closures=True):
+                        if x.get("k") == "mcall" and TRANSFORM_RX.match(x["m"]):
+                            changed.append("%s: `%s` is applied to the text before it is escaped" % (f.name, x["m"]))
+                        if x.get("k") == "path" and len(x["segs"]) == 1 and x["s"] in locs and x["s"] not in seen:
+                            seen.add(x["s"])
+                            nxt += locs[x["s"]]
+                todo = nxt
+                depth += 1
+    obs.append(ob("C12.sinks/as-stored", False if changed else True if n_sites >= 20 else None, "proc_gen/*.rs",
+                  "; ".join(sorted(set(changed))[:3]) if changed else "%d uses of the string-literal emitter, each on the stored text" % n_sites,
+                  witness=None if not changed else 'class="a\n  b" reaches the runtime as "a b"; wx:key=" a " as "a"'))
+    return obs
+
+
 def run(ctx):
     ob = ctx.ob
     obs = []
@@ -858,6 +910,7 @@ def run(ctx):
             obs.append(x)
     obs += wave7_rules(ctx)
     obs += wave10_rules(ctx)
+    obs += wave11_rules(ctx)
     obs += entity_start_rule(ctx, "C12.entity")
     obs += dash_to_camel_table(ctx, "C12.names")
     return obs
